@@ -601,6 +601,50 @@ def runFlags (std : Stdlib) (c : Json) : R (Json × Option Json × Option String
         | some _, _ => some okOracle
   pure (model, oracle, none)
 
+/-- C19 "fileflags": a sequence of file-flag arguments; per file its extension, whether it exists, and the document it
+holds (`doc`: what the decoder yields; null for a text the decoder refuses) -/
+def runFileFlags (c : Json) : R (Json × Option Json × Option String) := do
+  let o ← getOpts c "opts"
+  let fallback := boolFieldD c "fallback" false
+  let files := match optField c "files" with | some (.arr a) => a.toList | _ => []
+  let args ← files.mapM (fun f => do
+    let ext := strFieldD f "ext" ""
+    let hasLoader := ext == ".yml" || ext == ".json" || fallback
+    if !hasLoader || boolFieldD f "missing" false then pure FileArg.fail
+    else match optField f "doc" with
+      | some .null | none => pure FileArg.fail
+      | some dj => do
+        let d ← parseGoData dj
+        pure (FileArg.doc (if ext == ".json" then jsonFlavour d else d)))
+  let col := fileSets o { config := Val.empty, err := none } args
+  let errJ : Json := match col.err with
+    | none => .null
+    | some _ => Json.mkObj [("set", .bool true)]
+  -- FlagValue.Set of a file flag never reports an error itself (the third result of its loader is always nil)
+  let model := Json.mkObj [("config", viewOnly col.config), ("err", errJ), ("set", .arr (args.map (fun _ => Json.bool false)).toArray),
+    ("optsKept", .bool true)]
+  let oracle : Option Json := match optField c "impl" with
+    | none => none
+    | some impl =>
+      let rec go (cfg : Val) : List FileArg → Val × Bool
+        | [] => (cfg, false)
+        | a :: rest =>
+          match fileLoad o a with
+          | .ok none => go cfg rest
+          | .ok (some x) => go (mergeCfg o cfg x) rest
+          | _ => (cfg, true)
+      let (want, werr) := go Val.empty args
+      let got := ((optField impl "config").getD .null).compress
+      let gerr := (optField impl "err").getD .null
+      if !(boolFieldD impl "optsKept" false) then some (failOracle "the collector dropped the flag's options")
+      else if got != (viewOnly want).compress then some (failOracle "the file flag's config differs from merging the files in order, with the flag's options, up to the first failing one")
+      else match werr, gerr with
+        | false, .null => some okOracle
+        | true, .null => some (failOracle "a failing file argument was not reported by Error()")
+        | false, _ => some (failOracle "Error() reports a failure although every file loads")
+        | true, _ => some okOracle
+  pure (model, oracle, none)
+
 def errKindJson {α : Type} (r : Outcome α) : Json :=
   match r with
   | .err e => Json.mkObj [("err", Json.mkObj [("reason", .str e.reason.name), ("typed", .bool true)])]
@@ -944,6 +988,7 @@ def runFull (std : Stdlib) (c : Json) : R (Json × Option Json × Option String)
   | "conv" => runConv std c
   | "norm" => runNorm c
   | "flags" => runFlags std c
+  | "fileflags" => runFileFlags c
   | "eval" => runEval std c
   | "unpack" => runUnpack std c
   | "roundtrip" => runRoundtrip std c
@@ -967,8 +1012,15 @@ def runFull (std : Stdlib) (c : Json) : R (Json × Option Json × Option String)
     let ty? ← match optField c "ty" with
       | some .null | none => pure none
       | some tj => do pure (some (← parseTy tj))
+    -- "overlay": in-memory settings merged over the loaded document before it is read (no decoder involved)
+    let ov? ← match optField c "overlay" with
+      | some .null | none => pure none
+      | some j => do pure (some (← parseGoData j))
     let side (dd : GoData) : R Json := do
-      match newFrom o dd with
+      let loaded : Outcome Val := match newFrom o dd, ov? with
+        | .ok c0, some ov => cfgMerge o c0 ov
+        | r, _ => r
+      match loaded with
       | .ok cfg =>
         let vw ← readE std cfg o (Json.mkObj [("r", "view")])
         let typed := match ty? with
